@@ -23,7 +23,10 @@ class T1(Component):
 
 
 class T2(Component):
-    pass
+    """a container-like component that is currently empty (len() == 0, so it is falsy): still a component"""
+
+    def __len__(self):
+        return 0
 
 
 TYPES = [T1, T2]
@@ -138,6 +141,8 @@ def join_leave_step(a1: bool, a2: bool, ao: bool, b1: bool, b2: bool, bo: bool, 
         for a in residents:
             a.add_component(Env.PositionComponent(a, m, 0, 0, 0))
     _install(m, env, residents)
+    if hx.P.get('completed'):
+        m.complete()                 # a finished model still mirrors joins and leaves (post-run bookkeeping)
     if op == 'join':
         new = _mk_agent(m, "new", n1, n2, no)
         env.add_agent(new)
@@ -689,6 +694,8 @@ def obligations(tier):
     step_parts = [{"r": r, "op": op, "world": "plain"} for r in range(0, 4) for op in ("join", "leave") if not (r == 0 and op == "leave")]
     sp_worlds = ["space", "grid"] if tier == "quick" else ["space", "space_wrap", "grid", "line", "discrete"]
     sp_parts = [{"r": r, "op": op, "world": w} for w in sp_worlds for r in (2,) for op in ("join", "leave")]
+    step_parts += [{"r": 2, "op": op, "world": "plain", "completed": True} for op in ("join", "leave")]
+    sp_parts += [{"r": 2, "op": op, "world": "space", "completed": True} for op in ("join", "leave")]
     obs = [
         X("join_leave_step", join_leave_step, parts=step_parts, labels=("join_with_components", "leave_with_components"),
           labels_for=lambda p: ("join_with_components",) if p["op"] == "join" else ("leave_with_components",),
